@@ -180,6 +180,9 @@ func actorFields(f *Fields, name string, a *world.Actor) {
 	}
 }
 
+// FNV is the 64-bit FNV-1a hash of b.
+func FNV(b []byte) uint64 { return fnv(b) }
+
 func fnv(b []byte) uint64 {
 	h := uint64(0xcbf29ce484222325)
 	for _, c := range b {
